@@ -233,6 +233,53 @@ func IsCode(k string) bool {
 	return len(k) == 3 && k[0] >= '1' && k[0] <= '5' && k[1] >= '0' && k[1] <= '9' && k[2] >= '0' && k[2] <= '9'
 }
 
+// The documented nesting of directives, as far as the generator uses it. The
+// model generator and its context fixer rely on this table - not on the
+// library's - so that a document the documentation allows stays "valid" for
+// the checks even if the library's table changes (C06, in contrast, reads the
+// relation from the library: that property is parametric in it).
+var docAdmits = map[string][]string{
+	"URL":     {"GET", "POST", "PUT", "PATCH", "DELETE", "Path", "PASTE", "Protocol", "Method", "Tags"},
+	"verb":    {"Description", "Request", "code", "Path", "Query", "PASTE", "Tags"},
+	"code":    {"Body", "Headers", "PASTE"},
+	"Request": {"Body", "Headers", "PASTE"},
+	"INFO":    {"Title", "Version", "Description", "PASTE"},
+	"SERVER":  {"BaseUrl", "PASTE"},
+	"Method":  {"Description", "Params", "Result", "Tags"},
+	"TAG":     {"Description"},
+	"MACRO": {"INFO", "Title", "Version", "Description", "SERVER", "BaseUrl", "URL", "GET", "POST", "PUT", "PATCH", "DELETE", "Body",
+		"Request", "code", "Path", "Headers", "Query", "TYPE", "ENUM", "PASTE"},
+	"root": {"JSIGHT", "INFO", "SERVER", "URL", "GET", "POST", "PUT", "PATCH", "DELETE", "TYPE", "ENUM", "MACRO", "PASTE", "TAG"},
+}
+
+func kindClass(kw string) string {
+	if IsVerb(kw) {
+		return "verb"
+	}
+	if IsCode(kw) {
+		return "code"
+	}
+	return kw
+}
+
+// DocAdmits: parent ("" = top level) admits child per the documented nesting.
+func DocAdmits(parent, child string) bool {
+	p := "root"
+	if parent != "" {
+		p = kindClass(parent)
+	}
+	c := kindClass(child)
+	for _, a := range docAdmits[p] {
+		if a == c || (a == child) {
+			return true
+		}
+		if c == "verb" && IsVerb(a) && a == child {
+			return true
+		}
+	}
+	return false
+}
+
 // KindOf maps a keyword to the library's directive kind.
 func KindOf(kw string) directive.Enumeration {
 	e, err := directive.NewDirectiveType(kw)
@@ -267,10 +314,9 @@ func (doc *Doc) ResolveCheck() string {
 	var problem string
 	var place func(d, wantParent *Dir) *resNode
 	place = func(d, wantParent *Dir) *resNode {
-		k := KindOf(d.Kw)
 		for {
 			if cur == nil {
-				if !k.IsAllowedForRootContext() {
+				if !DocAdmits("", d.Kw) {
 					problem = fmt.Sprintf("%s#%d has no admissible context", d.Kw, d.ID)
 					return nil
 				}
@@ -282,7 +328,7 @@ func (doc *Doc) ResolveCheck() string {
 				cur = n
 				return n
 			}
-			if KindOf(cur.d.Kw).IsAllowedForDirectiveContext(k) {
+			if DocAdmits(cur.d.Kw, d.Kw) {
 				if d.PathBearing() && cur.d.Kw == "URL" {
 					if cur.explicit {
 						problem = fmt.Sprintf("%s#%d with a path inside a parenthesised URL", d.Kw, d.ID)
@@ -372,17 +418,16 @@ func (doc *Doc) fixOne() bool {
 	var rec func(list []*Dir, parent *Dir) bool
 	rec = func(list []*Dir, parent *Dir) bool {
 		for i, d := range list {
-			k := KindOf(d.Kw)
 			ok := false
 			for {
 				if cur == nil {
-					ok = k.IsAllowedForRootContext() && parent == nil
+					ok = DocAdmits("", d.Kw) && parent == nil
 					if ok {
 						cur = &resNode{d: d, explicit: d.Explicit}
 					}
 					break
 				}
-				if KindOf(cur.d.Kw).IsAllowedForDirectiveContext(k) {
+				if DocAdmits(cur.d.Kw, d.Kw) {
 					if d.PathBearing() && cur.d.Kw == "URL" {
 						if cur.explicit {
 							break
